@@ -231,6 +231,23 @@ func check(c Case) engine.Outcome {
 			return o
 		}
 	}
+	// the annotation view of a word (what reports print) is the normalised stream, letter by letter
+	if legal {
+		ann := pipe.Run([][]strategy.Action{word}, pipe.Opts{}, func(cs []<-chan strategy.Action) []<-chan string {
+			return []<-chan string{strategy.ActionsToAnnotations(cs[0])}
+		})
+		wantN := stub.Normalize(word)
+		if !ann.OK() || len(ann.Outs[0]) != len(word) {
+			o.Failf("ActionsToAnnotations(%v): %s, %d annotations for %d actions", c.Actions, ann.Verdict, len(ann.Outs[0]), len(word))
+			return o
+		}
+		for i, a := range wantN {
+			if ann.Outs[0][i] != map[strategy.Action]string{strategy.Buy: "B", strategy.Sell: "S", strategy.Hold: ""}[a] {
+				o.Failf("ActionsToAnnotations(%v) = %q; the normalised stream (alternating, starting with Buy) is %v", c.Actions, ann.Outs[0], wantN)
+				return o
+			}
+		}
+	}
 	// CountTransactions is the running count of non-Hold actions
 	cnt := pipe.Run([][]strategy.Action{word}, pipe.Opts{}, func(cs []<-chan strategy.Action) []<-chan int {
 		return []<-chan int{strategy.CountTransactions(cs[0])}
